@@ -63,7 +63,21 @@ fn opt<T>(rng: &mut Rng, f: impl FnOnce(&mut Rng) -> T) -> Option<T> {
 }
 
 pub fn gen_config(rng: &mut Rng) -> Config {
-    let text = |rng: &mut Rng| rng.pick(TEXTS).to_string();
+    // mostly short hostile texts; now and then a long one with a multi-byte character sitting across a
+    // "natural" length limit (16, 32, 63/64 = NAMEDATALEN, 128, 255/256 bytes)
+    let text = |rng: &mut Rng| {
+        if rng.chance(1, 6) {
+            let b = *rng.pick(&[16usize, 32, 63, 64, 128, 255, 256]);
+            let o = rng.range(1, 3) as usize;
+            let ch = *rng.pick(&['é', '€', '😀']);
+            let mut t = "a".repeat(b - o.min(ch.len_utf8() - 1).max(1));
+            t.push(ch);
+            t.push_str(&"z".repeat(rng.usize_below(10)));
+            t
+        } else {
+            rng.pick(TEXTS).to_string()
+        }
+    };
     let mut c = Config::new();
     c.url = if rng.chance(2, 3) { Some(rng.pick(URLS).to_string()) } else { None };
     c.user = opt(rng, text);
